@@ -123,6 +123,11 @@ Check(r, idx) ==
         undisturbed == (~\E w \in wcalls : IsWrite(w.op) /\ ~\E x \in wrets : x.g = w.g /\ x.op = "setifabsent-noop") /\ r.sc.expiry = 0 /\ r.sc.inloader = <<>> /\ ~\E x \in exits : x.err \in {"nf", "nfw"}
         \* a Get that returned a value and does not find the key afterwards
         notCached == {e \in posts : e.op = "Get" /\ e.err = "miss" /\ ~removedBefore(e)}
+        \* F24: the key held an EXPIRED, not yet removed entry when the race started (sc.dead = 1) and the only other activity is maintenance
+        \* ("sweep" = CleanUp, not a write).  Removing the dead node changes nothing a caller can see, so the load that was started because the
+        \* entry had expired is not disturbed: the value it returned is in the cache, unless a LOADED value (>= 1000) was reported removed.
+        deadQuiet == r.sc.dead = 1 /\ (\A w \in wcalls : w.op = "sweep") /\ r.sc.inloader = <<>> /\ ~\E x \in exits : x.err \in {"nf", "nfw"}
+        droppedBySweep == {e \in posts : e.op = "Get" /\ e.err = "miss" /\ ~\E a \in aevs : a.seq < e.seq /\ a.v >= 1000}
         \* a Refresh whose successful result has been delivered while the cache still serves the replaced value (or nothing)
         notSwapped == {e \in posts : e.op = "Refresh" /\ ~removedBefore(e) /\ (e.err = "miss" \/ (r.sc.preload = 1 /\ e.v = 50))}
         \* C11 "reads of fresh entries trigger nothing": with the clock frozen after the preloaded entry became due, a value that a
@@ -131,6 +136,7 @@ Check(r, idx) ==
     IN
     (IF r.sc.stale = 1 /\ undisturbed /\ fromFresh # {} THEN <<F(idx, "C11.reload_triggered_by_fresh_entry", fromFresh)>> ELSE <<>>)
     \o (IF undisturbed /\ notCached # {} THEN <<F(idx, "C10.returned_value_not_cached", notCached)>> ELSE <<>>)
+    \o (IF deadQuiet /\ droppedBySweep # {} THEN <<F(idx, "C10.load_dropped_by_sweep_of_expired_entry", droppedBySweep)>> ELSE <<>>)
     \o (IF undisturbed /\ notSwapped # {} THEN <<F(idx, "C11.result_delivered_before_swap", notSwapped)>> ELSE <<>>)
     \* C20: load successes plus failures equals the number of loader invocations (at quiescence, nothing hung, no scripted panic:
     \* a panicking reload on the executor is recovered by the harness's executor, not by the cache)
